@@ -125,6 +125,10 @@ def search(ctx, N):
         m = int(rng.integers(2, 9))
         shape = (m,) if k % 3 else (m, 3)
         Ls, As, Qs = rng.uniform(-5, 5, size=shape), rng.uniform(0.5, 3, size=shape) * rng.choice([-1, 1], size=shape), rng.uniform(0.2, 0.8, size=shape) * rng.choice([-1, 1], size=shape)
+        if k % 2:
+            # very different magnitudes inside one array (per element): an element's tolerances must come from its own three terms
+            mag = 10.0 ** rng.integers(-6, 13, size=shape)
+            Ls, As = Ls * mag, As * mag * 10.0 ** rng.integers(-6, 1, size=shape)
         e = [Ls + As * Qs ** i for i in range(3)]
         with warnings.catch_warnings():
             warnings.simplefilter('ignore')
